@@ -130,6 +130,12 @@ class C10(Prop):
         if case.suite == "inject":
             from .. import injgen as ig
             return ig.oracle(case, lines)
+        if case.suite == "time":
+            # cancellation is serialised with delivery: the poll of one task runs inside its handle's section
+            from .c19 import handle_section_failure
+            f = handle_section_failure(case, lines)
+            if f:
+                return f
         edges = set()
         slot_of = {}
         for k in range(len(case.events)):
